@@ -73,6 +73,14 @@ Print Assumptions C09_cache_reuse_is_sound.
    of the cache and the place the completer looks at are k + 1 - distance *)
 Theorem C09_source_filters_and_places :
   (la_filter_scan = la_filter_complete /\ In "grammar->term_error_num"%string la_filter_scan /\ In "lookahead_term_num"%string la_filter_scan) /\
-  (forall k p d, cache_index_now k p d = (k + 1 - d)%Z /\ cache_index_then k p d = (p + 1 - d)%Z /\ completion_place k d = (k + 1 - d)%Z).
-Proof. split; [exact la_filters_same | exact cache_indexes_ok]. Qed.
+  (forall k p d, cache_index_now k p d = (k + 1 - d)%Z /\ cache_index_then k p d = (p + 1 - d)%Z /\ completion_place k d = (k + 1 - d)%Z) /\
+  cache_check_visits_all_start_sits = true.
+Proof. split; [exact la_filters_same | split; [exact cache_indexes_ok | exact cache_check_loop_ok]]. Qed.
 Print Assumptions C09_source_filters_and_places.
+
+(* C09_cache_reuse_is_sound assumes that the parse list below the place of caching is the one the entry was saved
+   with.  Only an error recovery rewrites the list; the source gives every saved entry the number of recoveries made
+   so far, uses an entry only when that number is the current one, counts every recovery and starts every parse at 0 *)
+Theorem C09_cache_entries_do_not_survive_a_recovery : cache_entries_carry_recovery_number = true.
+Proof. reflexivity. Qed.
+Print Assumptions C09_cache_entries_do_not_survive_a_recovery.
